@@ -42,3 +42,6 @@ mod matcher;
 mod minimizer;
 mod partitions;
 mod store;
+
+#[cfg(aws_smt_strings_verif)]
+pub mod verif_hooks;
